@@ -10,7 +10,9 @@ MONOTONIC = ["Arc", "Concave", "Ramp", "Sigmoid", "SShape", "ZShape"]
 
 
 def snap(v, d):
-    """nearest double to the d-decimals grid point (what FLL export/import reproduces)"""
+    """nearest double to the d-decimals grid point (what FLL export/import reproduces); d = None: any double"""
+    if d is None:
+        return float(v)
     return float(f"{v:.{d}f}") + 0.0 if math.isfinite(v) else v
 
 
@@ -26,7 +28,7 @@ def height(rnd, d, free=False):
 def shape_term(rnd, name, lo, hi, kinds=None, d=3, kind=None, degenerate=True, free_height=False, reversed_bounds=False):
     """spec = dict(cls, name, params, height); every parameter is a Python float on the d-decimals grid"""
     w = hi - lo
-    unit = 10.0**-d
+    unit = 10.0**-d if d is not None else 0.0
 
     def g(a=lo, b=hi):
         return snap(rnd.uniform(a, b), d)
@@ -36,9 +38,13 @@ def shape_term(rnd, name, lo, hi, kinds=None, d=3, kind=None, degenerate=True, f
 
     def two():
         s, e = g(), g()
+        tries = 0
         while e == s:
             e = snap(s + rnd.choice([-1, 1]) * pos(), d)
-        if degenerate and rnd.random() < 0.1:
+            tries += 1
+            if tries > 20:
+                e = math.nextafter(s, inf)
+        if degenerate and d is not None and rnd.random() < 0.1:
             # a very narrow shape: the two parameters differ by a grid unit or so (closer than the library's comparison tolerance)
             near = snap(s + rnd.choice([-1, 1]) * rnd.choice([unit, 2 * unit, max(unit, 5e-4)]), d)
             if near != s:
@@ -127,8 +133,12 @@ def shape_term(rnd, name, lo, hi, kinds=None, d=3, kind=None, degenerate=True, f
     elif k == "Discrete":
         n = rnd.randint(1 if degenerate and rnd.random() < 0.15 else 2, 6)
         xs = sorted({g() for _ in range(n)})
+        tries = 0
         while len(xs) < min(n, 2):
             xs = sorted(set(xs) | {g(), snap(lo + rnd.random() * w, d)})
+            tries += 1
+            if tries > 20:
+                xs = sorted(set(xs) | {lo, hi, math.nextafter(lo, inf)})
         p = []
         for x in xs:
             p += [x, snap(rnd.choice([0.0, 1.0, rnd.random(), rnd.random()]), d)]
